@@ -66,6 +66,8 @@ class FnSpec:
         self.loops = kw.get('loops') or {}
         self.result = kw.get('result')          # declared kind of the result (for havoc at call sites)
         self.pure = kw.get('pure', False)
+        self.functional = kw.get('functional', False)   # result is a function of `reads` (+ scalar args): canonical term
+        self.varies = list(kw.get('varies') or [])      # objects whose learned state must not influence the result
         self.reads = kw.get('reads')            # read set of a pure method (its result is a function of it)
         self.self_cls = kw.get('self_cls')      # verify the body for these receiver classes (default: defining class)
         self.note = kw.get('note', '')
